@@ -69,6 +69,7 @@ func main() {
 	runSelfTest()
 	runFormat()
 	runVersion()
+	runDecoderHistories()
 	chk.Finish()
 }
 
